@@ -9,10 +9,6 @@ open Matrix
 
 variable {K : Type} [Field K] [LinearOrder K] [IsStrictOrderedRing K] {n : ℕ}
 
-theorem memo_eq (f : Fin n → K) : memo f = f := by
-  funext i
-  simp [memo]
-
 theorem ipassFast_eq (P : Prob n K) (R : IParams K) (s : ISt n K) : ipassFast P R s = ipass P R s := by
   unfold ipassFast
   simp only [memo_eq]
